@@ -30,3 +30,85 @@ pub open spec fn sig_ids_distinct(sigs: Seq<Signature>) -> bool {
 pub open spec fn key_ids_distinct(keys: Seq<&PublicKey>) -> bool {
     forall|i: int, j: int| 0 <= i < j < keys.len() ==> (#[trigger] keys[i]).kid() != (#[trigger] keys[j]).kid()
 }
+
+// ---- exact (functional) characterisation of Metablock::verify ----
+// std's `collect::<HashMap>` keeps, for a repeated id, the LAST key / signature listed under it.
+pub open spec fn last_key_idx(keys: Seq<&PublicKey>, id: KeyId) -> int
+    decreases keys.len()
+{
+    if keys.len() == 0 { -1 } else if keys.last().kid() == id { keys.len() - 1 } else { last_key_idx(keys.drop_last(), id) }
+}
+pub open spec fn last_sig_idx(sigs: Seq<Signature>, id: KeyId) -> int
+    decreases sigs.len()
+{
+    if sigs.len() == 0 { -1 } else if sigs.last().kid() == id { sigs.len() - 1 } else { last_sig_idx(sigs.drop_last(), id) }
+}
+// id `id` is good: the (last) authorized key filed under it accepts the (last) signature attributed to it
+pub open spec fn good_id(mb: Metablock, keys: Seq<&PublicKey>, id: KeyId) -> bool {
+    signed_msg(mb.metadata) is Some
+    && last_key_idx(keys, id) >= 0 && last_sig_idx(mb.signatures@, id) >= 0
+    && keys[last_key_idx(keys, id)].sig_ok(signed_msg(mb.metadata)->0, mb.signatures@[last_sig_idx(mb.signatures@, id)])
+}
+pub open spec fn sig_ids(mb: Metablock) -> Set<KeyId> {
+    mb.signatures@.map_values(|s: Signature| s.kid()).to_set()
+}
+pub open spec fn good_ids(mb: Metablock, keys: Seq<&PublicKey>) -> Set<KeyId> {
+    sig_ids(mb).filter(|id: KeyId| good_id(mb, keys, id))
+}
+pub open spec fn verify_ok(mb: Metablock, threshold: u32, keys: Seq<&PublicKey>) -> bool {
+    threshold >= 1 && mb.signatures@.len() >= 1 && signed_msg(mb.metadata) is Some
+    && good_ids(mb, keys).len() >= threshold
+}
+pub proof fn lemma_last_key_idx(keys: Seq<&PublicKey>, id: KeyId)
+    ensures -1 <= last_key_idx(keys, id) < keys.len(),
+            last_key_idx(keys, id) >= 0 ==> keys[last_key_idx(keys, id)].kid() == id,
+            forall|i: int| last_key_idx(keys, id) < i < keys.len() ==> (#[trigger] keys[i]).kid() != id,
+    decreases keys.len()
+{
+    if keys.len() > 0 && keys.last().kid() != id {
+        lemma_last_key_idx(keys.drop_last(), id);
+        assert forall|i: int| last_key_idx(keys, id) < i < keys.len() implies (#[trigger] keys[i]).kid() != id by {
+            if i < keys.len() - 1 { assert(keys.drop_last()[i] == keys[i]); }
+        }
+    }
+}
+pub proof fn lemma_last_sig_idx(sigs: Seq<Signature>, id: KeyId)
+    ensures -1 <= last_sig_idx(sigs, id) < sigs.len(),
+            last_sig_idx(sigs, id) >= 0 ==> sigs[last_sig_idx(sigs, id)].kid() == id,
+            forall|i: int| last_sig_idx(sigs, id) < i < sigs.len() ==> (#[trigger] sigs[i]).kid() != id,
+    decreases sigs.len()
+{
+    if sigs.len() > 0 && sigs.last().kid() != id {
+        lemma_last_sig_idx(sigs.drop_last(), id);
+        assert forall|i: int| last_sig_idx(sigs, id) < i < sigs.len() implies (#[trigger] sigs[i]).kid() != id by {
+            if i < sigs.len() - 1 { assert(sigs.drop_last()[i] == sigs[i]); }
+        }
+    }
+}
+// the pair sequences handed to collect::<HashMap> resolve a repeated id exactly like last_key_idx / last_sig_idx
+pub proof fn lemma_last_index_keys(s: Seq<(&KeyId, &PublicKey)>, keys: Seq<&PublicKey>, id: &KeyId)
+    requires s.len() == keys.len(), forall|i: int| 0 <= i < s.len() ==> *(#[trigger] s[i]).0 == keys[i].kid(),
+    ensures trusted_axioms::last_index_of(s, id) == last_key_idx(keys, *id),
+    decreases s.len()
+{
+    if s.len() > 0 {
+        assert(*s.last().0 == keys.last().kid());
+        if *s.last().0 != *id {
+            assert forall|i: int| 0 <= i < s.drop_last().len() implies *(#[trigger] s.drop_last()[i]).0 == keys.drop_last()[i].kid() by { assert(s.drop_last()[i] == s[i]); }
+            lemma_last_index_keys(s.drop_last(), keys.drop_last(), id);
+        }
+    }
+}
+pub proof fn lemma_last_index_sigs(s: Seq<(&KeyId, &Signature)>, sigs: Seq<Signature>, id: &KeyId)
+    requires s.len() == sigs.len(), forall|i: int| 0 <= i < s.len() ==> *(#[trigger] s[i]).0 == sigs[i].kid(),
+    ensures trusted_axioms::last_index_of(s, id) == last_sig_idx(sigs, *id),
+    decreases s.len()
+{
+    if s.len() > 0 {
+        assert(*s.last().0 == sigs.last().kid());
+        if *s.last().0 != *id {
+            assert forall|i: int| 0 <= i < s.drop_last().len() implies *(#[trigger] s.drop_last()[i]).0 == sigs.drop_last()[i].kid() by { assert(s.drop_last()[i] == s[i]); }
+            lemma_last_index_sigs(s.drop_last(), sigs.drop_last(), id);
+        }
+    }
+}
